@@ -41,7 +41,7 @@ theorem b64EncodeStr_injective (a b : Bytes) (h : b64EncodeStr a = b64EncodeStr 
 theorem getMultihash_computed {H : HashFam} (ok : HashOK H) {c : Nat} {h : Bytes → Bytes} (hc : H c = some h)
     (data : Bytes) : getMultihash (b64EncodeStr (mhEncode c (h data))) = some (c, h data) := by
   unfold getMultihash
-  rw [b64_decode_encode_str]
+  rw [b64_decode_strict_encode_str]
   simp [mh_decode_encode c (h data) (ok.code_small c h hc) (ok.digest_small c h hc data)]
 
 theorem calculate_eq {H : HashFam} {v : Json} {c : Nat} {s : String}
